@@ -547,6 +547,20 @@ func c04WritesIndex(fn *ssa.Function, idx ssa.Value, depth int) bool {
 					return true
 				}
 			}
+			// a struct built around the index: a store to one of its fields
+			if x.Referrers() != nil {
+				for _, r := range *x.Referrers() {
+					fa, ok := r.(*ssa.FieldAddr)
+					if !ok || fa.Referrers() == nil {
+						continue
+					}
+					for _, rr := range *fa.Referrers() {
+						if st, ok := rr.(*ssa.Store); ok && st.Addr == ssa.Value(fa) && derives(st.Val, d+1) {
+							return true
+						}
+					}
+				}
+			}
 			return false
 		case *ssa.FreeVar:
 			for _, cv := range captured(x) {
@@ -559,6 +573,10 @@ func c04WritesIndex(fn *ssa.Function, idx ssa.Value, depth int) bool {
 			if x.Op == token.MUL {
 				return derives(x.X, d+1)
 			}
+		case *ssa.FieldAddr:
+			return derives(x.X, d+1)
+		case *ssa.Field:
+			return derives(x.X, d+1)
 		}
 		for _, l := range leaves(v) {
 			if l != v && derives(l, d+1) {
@@ -570,6 +588,17 @@ func c04WritesIndex(fn *ssa.Function, idx ssa.Value, depth int) bool {
 	for _, f := range withClosures(fn) {
 		for _, b := range f.Blocks {
 			for _, ins := range b.Instrs {
+				if mc, isMC := ins.(*ssa.MakeClosure); isMC {
+					// a method value (or a new named function) bound to something that holds the index
+					if h, _ := mc.Fn.(*ssa.Function); h != nil && h.Blocks != nil && h.Parent() == nil {
+						for k, bnd := range mc.Bindings {
+							if k < len(h.FreeVars) && derives(bnd, 0) && c04WritesIndex(h, h.FreeVars[k], depth+1) {
+								return true
+							}
+						}
+					}
+					continue
+				}
 				ci, ok := ins.(ssa.CallInstruction)
 				if !ok {
 					continue
